@@ -309,6 +309,9 @@ class C03(RunSpec):
         p["leaf"] = _cycle(ALL_LEAVES, idx, 1)
         p["gscs"] = ["fevals", "evals", "melimit", "fevals"]
         p["levels"] = [2, 2, 3, 1]
+        if idx % 10 == 2:
+            # local searches that make no iteration at all (flat objective): whatever the deme does then must still be counted
+            p.update({"fams": ["plateau", "constant", "plateau"], "leaf": _cycle(["local", "local_maxiter"], idx // 10), "levels": [2, 3], "allow_cutoff": False})
         if idx % 7 == 6:
             p = {"kind": "minimize", "dim": (2, 4), "budget": "maxfun"}
         return p
@@ -319,6 +322,7 @@ class C03(RunSpec):
             ("engine.local", 1, "local deme"),
             ("C03.cutoff_exhausted_seen", 1, "budget exhausted"),
             ("C03.minimize_nfev_checked", 1, "minimize runs"),
+            ("C03.local_deme_without_any_iteration", 2, "local deme whose search made no iteration"),
         ]
         return fl
 
@@ -395,6 +399,10 @@ class C05(RunSpec):
         p["leaf"] = _cycle(ALL_LEAVES, idx, 1)
         p["levels"] = [2, 2, 3, 3, 1]
         p["level_limit"] = rng.randint(2, 4)
+        if idx % 10 == 3:
+            # AllStopped with hibernation: the state "every awake deme has stopped, a sleeping one is still active" must not count as stopped
+            p.update({"gsc": "allstopped", "hibernation": True, "n_levels": 2, "sprout": _cycle(["nbc", "simple", "nbc"], idx // 10), "level_limit": 2,
+                      "root": _cycle(["sea", "de", "shade"], idx // 10), "leaf": _cycle(["sea", "cma", "de"], idx // 10), "fams": ["sphere", "rastrigin"], "free_lscs": True})
         if idx % 9 == 8:
             # (reuse pair) stop conditions must not carry anything over from the first tree: demes that stop, ids that repeat
             p["gsc"] = _cycle(["fevals", "evals", "fevals", "nononroot", "allstopped", "fevals"], idx // 9)
@@ -407,6 +415,9 @@ class C05(RunSpec):
     def make_case(self, seed, idx, tier):
         d = super().make_case(seed, idx, tier)
         rng = gen.case_rng(self.prop, seed, idx, "target")
+        if d.get("kind") == "tree" and idx % 10 == 3 and not d.get("reuse") and d["gsc"]["k"] == "allstopped":
+            d["levels"][0]["lsc"] = {"k": "melimit", "n": 12}
+            d["levels"][1]["lsc"] = {"k": "melimit", "n": 1 + (idx // 10) % 2}
         if d.get("kind") == "tree" and idx % 5 == 2:
             d["rerun"] = True
             d["entry"] = "tree"
@@ -496,6 +507,7 @@ class C05(RunSpec):
 
     def floors(self, tier):
         fl = [(f"C05.gsc_true.{g}", 1, "GSC class seen true") for g in gen.GSC_KINDS]
+        fl += [("C05.gsc_consulted_while_only_sleeping_demes_are_active", 2, "GSC consulted while every awake deme has stopped and a sleeping one is still active")]
         fl += [("reruns_of_a_finished_tree", 5, "run() called again on a finished tree"), ("explicit_steps_before_run", 5, "runs carried out in pieces (run_step() calls, then run())")]
         fl += [("C05.targeted_runs_hit_the_chosen_consultation", 3, "pilot-then-target placements that hit the chosen consultation")]
         fl += [
